@@ -81,6 +81,7 @@ type Runner struct {
 	Timeout time.Duration // per request
 	Crashes int
 	Hangs   int
+	MaxDown int    // Run gives up (answers "SKIPPED") after this many crashes and hangs; 0 = 5
 	keep    *child // long-lived child of Ask
 	keepW   *bufio.Writer
 }
@@ -246,7 +247,18 @@ func firstLines(s string, n int) string {
 // makes it hang gets "HANG <detail>".
 func (r *Runner) Run(reqs []string) ([]string, error) {
 	out := make([]string, 0, len(reqs))
+	maxDown := r.MaxDown
+	if maxDown == 0 {
+		maxDown = 5
+	}
+	down := 0
 	for len(out) < len(reqs) {
+		if down >= maxDown { // the code under test is badly broken: the first failures are enough
+			for len(out) < len(reqs) {
+				out = append(out, "SKIPPED")
+			}
+			break
+		}
 		ans, status, detail, err := r.runSome(reqs[len(out):])
 		if err != nil {
 			return nil, err
@@ -259,6 +271,7 @@ func (r *Runner) Run(reqs []string) ([]string, error) {
 			break
 		}
 		bad := reqs[len(out)]
+		down++
 		if status == "CRASH" {
 			r.Crashes++
 			_, st2, d2, err := r.runSome([]string{bad})
